@@ -74,7 +74,7 @@ exec_c18q(const vcase *vc)
 		return 0;
 	h_cfg_from_op(&cfg, &vc->ops[0]);
 	int world = (int) vop_arg(&vc->ops[1], 0, 0);
-	if (world < 0 || world > 2)
+	if (world < 0 || world > 3)
 		return 0;
 	if (h_begin(&cfg) != 0)
 		return 0;
@@ -186,6 +186,119 @@ exec_c18q(const vcase *vc)
 			vr_tag("sendq_drained_in_order");
 		nng_socket_close(req);
 		nng_socket_close(rep);
+	} else if (world == 3) {
+		// round 7: the receive queue of a raw REQ (nni_msgq behind RECVBUF) whose WRITER is the pipe: replies from a raw REP
+		// arrive under back-pressure, so with the queue full the pipe's put is parked on the queue (a waiting writer) while
+		// the application reads, resizes and reads again.  Nothing may be lost (except by a shrinking resize: oldest first,
+		// only what no longer fits), reordered, duplicated or corrupted.
+		nng_socket req, rep;
+		H_OK(nng_req0_open_raw(&req));
+		H_OK(nng_rep0_open_raw(&rep));
+		size_t cap = (size_t) vop_arg(&vc->ops[1], 1, 4);
+		if (cap > 40)
+			cap = 40;
+		H_OK(nng_socket_set_int(req, NNG_OPT_RECVBUF, (int) cap));
+		H_OK(nng_listen(rep, "inproc://c18q3", NULL, 0));
+		H_OK(nng_dial(req, "inproc://c18q3", NULL, 0));
+		vs_settle();
+		nng_msg *tmpl = nullptr;
+		{
+			nng_msg *m = tagged(0x18300000u, 0, true);
+			if (nng_sendmsg(req, m, NNG_FLAG_NONBLOCK) != 0)
+				nng_msg_free(m);
+			vs_settle();
+			if (nng_recvmsg(rep, &tmpl, NNG_FLAG_NONBLOCK) != 0)
+				tmpl = nullptr;
+		}
+		std::deque<uint32_t> sent; // not yet received (or lost)
+		long                 allowed_loss = 0, lost = 0, nrecv = 0;
+		bool                 parked_seen = false;
+		auto take = [&](const char *who, bool must) -> bool {
+			nng_msg *m  = nullptr;
+			int      rv = nng_recvmsg(req, &m, NNG_FLAG_NONBLOCK);
+			if (rv != 0 && must) {
+				// replies may still be on their way through the pipe (it reads the next one only after its put completed):
+				// emptiness is only judged at a quiescent point
+				vs_settle();
+				rv = nng_recvmsg(req, &m, NNG_FLAG_NONBLOCK);
+			}
+			if (rv != 0) {
+				if (must)
+					VR_CHECK((long) sent.size() <= allowed_loss - lost, "C18:msgq-lost", "%s: %zu replies are outstanding (%ld may have been dropped by shrinking resizes) but receive returned %d", who,
+					    sent.size(), allowed_loss - lost, rv);
+				return false;
+			}
+			uint32_t t  = 0;
+			int      ok = h_msg_tag(m, &t);
+			nng_msg_free(m);
+			VR_CHECK(ok == 0, "C18:msgq-corrupt", "%s: message content corrupted (tag %08x)", who, t);
+			// the message must be one that is outstanding; everything older than it was dropped by a resize
+			size_t skipped = 0;
+			while (!sent.empty() && sent.front() != t) {
+				sent.pop_front();
+				skipped++;
+			}
+			VR_CHECK(!sent.empty(), "C18:msgq-order", "%s: received %08x, which is not among the outstanding replies in send order (reordered or duplicated)", who, t);
+			sent.pop_front();
+			lost += (long) skipped;
+			VR_CHECK(lost <= allowed_loss, "C18:msgq-order", "%s: %08x overtook %zu older replies (shrinking resizes account for at most %ld lost so far)", who, t, skipped, allowed_loss);
+			nrecv++;
+			return true;
+		};
+		for (int i = 2; tmpl != nullptr && i < vc->nops; i++) {
+			const vop *o = &vc->ops[i];
+			vr_at(i, o->name);
+			if (strcmp(o->name, "put") == 0) {
+				int n = (int) vop_arg(o, 0, 1);
+				for (int k = 0; k < n && sent.size() < 45; k++) {
+					uint32_t tag = 0x18300000u | serial++;
+					nng_msg *m   = tagged(tag, (size_t) vop_arg(o, 1, 0), false);
+					nng_msg_header_append(m, nng_msg_header(tmpl), nng_msg_header_len(tmpl));
+					if (nng_sendmsg(rep, m, NNG_FLAG_NONBLOCK) != 0) {
+						nng_msg_free(m);
+						continue;
+					}
+					vs_settle();
+					sent.push_back(tag);
+				}
+				if (sent.size() > cap + 1 && cap >= 2) {
+					vr_tag("writer_parked_on_deep_queue");
+					parked_seen = true;
+				}
+			} else if (strcmp(o->name, "get") == 0) {
+				int n = (int) vop_arg(o, 0, 1);
+				for (int k = 0; k < n && k < 50; k++)
+					if (!take("raw REQ receive queue", true))
+						break;
+				vs_settle();
+			} else if (strcmp(o->name, "resize") == 0) {
+				size_t ncap = (size_t) vop_arg(o, 0, 1);
+				if (ncap > 40)
+					continue;
+				// (an earlier shrink leaves depth + 1 messages in the queue, so that is the most it can hold)
+				size_t outstanding = sent.size() - (size_t) 0;
+				size_t held        = outstanding < cap + 1 ? outstanding : cap + 1;
+				if (held > ncap + 1)
+					allowed_loss += (long) (held - (ncap + 1));
+				if (ncap > cap && sent.size() > cap)
+					vr_tag("grow_with_parked_writer");
+				H_OK(nng_socket_set_int(req, NNG_OPT_RECVBUF, (int) ncap));
+				cap = ncap;
+				vs_settle();
+			}
+		}
+		for (int round = 0; round < 200 && !sent.empty(); round++) {
+			if (!take("raw REQ receive queue (final drain)", true))
+				break;
+			vs_settle();
+		}
+		VR_CHECK(!take("raw REQ receive queue (after the drain)", false), "C18:msgq-phantom", "a message arrived after every reply was accounted for");
+		if (parked_seen && nrecv > (long) 2)
+			vr_tag("drained_past_parked_writer");
+		if (tmpl != nullptr)
+			nng_msg_free(tmpl);
+		nng_socket_close(req);
+		nng_socket_close(rep);
 	} else {
 		// ids
 		std::set<int> seen[5]; // socket, ctx, dialer, listener, pipe
@@ -269,7 +382,7 @@ gen_c18q()
 	std::ostringstream t;
 	int mode = *pbt::welem<int>({{4, 0}, {2, 1}, {1, 2}});
 	t << "cfg " << *pbt::range<int>(1, 1000000) << " " << mode << " 30 " << *pbt::range<int>(0, 2) << " 300 0\n";
-	int world = *pbt::welem<int>({{4, 0}, {3, 1}, {2, 2}});
+	int world = *pbt::welem<int>({{4, 0}, {3, 1}, {2, 2}, {4, 3}});
 	t << "world " << world << " " << *gen::element(0, 1, 2, 3, 4, 7, 8, 16) << "\n";
 	auto ops = *gen::container<std::vector<std::string>>(gen::exec([world]() {
 		std::ostringstream o;
@@ -305,12 +418,12 @@ main(int argc, char **argv)
 	sp.rule = "world 0: cooked PUB -> raw SUB over inproc, histories of put n / get n / resize RECVBUF (0..33) on the raw SUB's nni_msgq at any fill level and ring "
 	          "offset against a deque model (drop-new when full, resize drops oldest keeping depth+1); world 1: raw REQ with no peer, non-blocking sends "
 	          "accepted iff the model has room, SENDBUF resized with requests queued, then a raw REP connects and must receive the survivors in order with "
-	          "intact content; world 2: sockets / contexts / dialers / listeners / pipes opened and closed, every id in 1..2^31-1 and never issued twice. "
+	          "intact content; world 3 (round 7): raw REP -> raw REQ over inproc, replies arrive under back-pressure so that the pipe's put waits on the full RECVBUF queue while the application reads / resizes / reads (FIFO, nothing lost beyond what a shrinking resize may drop, nothing duplicated); world 2: sockets / contexts / dialers / listeners / pipes opened and closed, every id in 1..2^31-1 and never issued twice. "
 	          "Non-trivial = a resize with queued messages after the ring advanced, a growing resize with queued messages, a dropping resize, an in-order "
-	          "drain of the send queue, or >= 6 sockets / >= 2 pipes in the id world; distinct by case hash";
+	          "drain of the send queue, a drain past a writer parked on a queue of depth >= 2, or >= 6 sockets / >= 2 pipes in the id world; distinct by case hash";
 	sp.nontrivial = [](const std::set<std::string> &t) {
 		return t.count("resize_nonempty_offset") || t.count("grow_nonempty") || t.count("resize_drop") || t.count("sendq_drained_in_order") || t.count("many_sockets") ||
-		    t.count("pipes_seen");
+		    t.count("pipes_seen") || t.count("drained_past_parked_writer") || t.count("grow_with_parked_writer");
 	};
 	return pbt::pbt_main(argc, argv, sp);
 }
